@@ -1047,7 +1047,11 @@ CIGAR_CH = "MIDNSHP=X"
 
 
 def write_bam(path, world, reads, build="hg19", sort=True, index=True, mapq=60,
-              baseq=40, fmt="bam", extra_records=None, header_extra=None):
+              baseq=40, fmt="bam", extra_records=None, header_extra=None, lowq=None, dup=1):
+    """`lowq` = {"seed", "frac", "kind": "base" | "mapq" | "both", "shape": "random" | "front" | "back"}:
+    a fraction of the records gets a mapping quality below aldy's threshold or scattered base qualities of 5
+    (unevenly along the file order with shape front / back).  `dup` = k: every read is written k times
+    (names suffixed), for ultra-deep samples."""
     import pysam
 
     shift = world["hg38_shift"] if build == "hg38" else 0
@@ -1074,12 +1078,29 @@ def write_bam(path, world, reads, build="hg19", sort=True, index=True, mapq=60,
             recs.append((ref_start + shift, ops, seq, name, 0, mapq, baseq))
     if extra_records:
         recs += extra_records
+    if dup > 1:
+        recs = [r[:3] + (f"{r[3]}x{k}",) + r[4:] for r in recs for k in range(dup)]
     if sort:
         recs.sort(key=lambda r: (r[7] if len(r) > 7 else 0, r[0], r[3]))
     mode = {"bam": "wb", "sam": "w"}[fmt]
     with pysam.AlignmentFile(path, mode, header=header) as f:
-        for rec in recs:
+        for ri, rec in enumerate(recs):
             ref_start, ops, seq, name, flag, mq, bq = rec[:7]
+            quals = None
+            if lowq:
+                qr = random.Random(f"{lowq['seed']}:{name}:{ref_start}")
+                frac = lowq["frac"]
+                if lowq.get("shape") == "front":
+                    frac = min(0.9, 2 * frac) if ri < len(recs) // 2 else 0.0
+                elif lowq.get("shape") == "back":
+                    frac = min(0.9, 2 * frac) if ri >= len(recs) // 2 else 0.0
+                if qr.random() < frac:
+                    kind = lowq.get("kind", "base")
+                    if kind in ("mapq", "both") and (kind == "mapq" or qr.random() < 0.5):
+                        mq = qr.choice([0, 5, 9])
+                    else:
+                        pb = qr.choice([0.1, 0.3, 1.0])
+                        quals = "".join(chr(33 + (5 if qr.random() < pb else bq)) for _ in seq)
             a = pysam.AlignedSegment(header)
             a.query_name = name
             a.flag = flag
@@ -1088,7 +1109,7 @@ def write_bam(path, world, reads, build="hg19", sort=True, index=True, mapq=60,
             a.mapping_quality = mq
             a.cigartuples = ops
             a.query_sequence = seq
-            a.query_qualities = pysam.qualitystring_to_array(chr(33 + bq) * len(seq))
+            a.query_qualities = pysam.qualitystring_to_array(quals or chr(33 + bq) * len(seq))
             f.write(a)
     if index and fmt == "bam":
         pysam.index(path)
